@@ -175,7 +175,10 @@ def addsub_tag(qa, qb, sub):
     if not hasattr(qb, "_units"):
         if qb == 0:
             return "ANumZero"
-        return "ANumDimless" if qa.dimensionless else "ANumRefuse"
+        try:
+            return "ANumDimless" if qa.dimensionless else "ANumRefuse"
+        except Exception:  # noqa: BLE001  (.dimensionless converts to root units first)
+            return "AEarly"
     if qa.dimensionality != qb.dimensionality:
         return "ADimErr"
     na, nb = nm_units(qa), nm_units(qb)
@@ -323,15 +326,22 @@ def run(ck):
     rng = random.Random(ck.seed)
     thorough = ck.tier == "thorough"
     n_gen = 200 if thorough else 20
-    ck.rule = (f"Fraction registry, exact. Units: degC degF degRe kelvin degR + their delta_ units + {n_gen} generated offset "
-               "units (random rational scale, offset; reference kelvin / degR / millikelvin) and their delta_ units. "
-               "Bundled units: every ordered pair x {to, +, -, *, /, <, <=, >, >=, ==} x autoconvert on/off x "
-               "default_as_delta on/off x scalar / ndarray (in-place twin). Pairs with a generated unit: conversion plus "
-               "two random operators each (all pairs in quick; a sample in thorough). Per unit: number operands in both "
-               "orders, ** (-2..3), unary -, abs, to_root_units. Compound containers (offset unit squared, times a "
-               "length, two offset units, offset x delta). String parsing with as_delta. Log units: all ordered pairs of "
-               "log units and their reference / related linear units, floats, |err| <= 1e-12*max(1,|expected|) (a test). "
-               "non-trivial = distinct (stream, operator, units, mode)")
+    ck.rule = (f"Fraction registry, exact. Units: degC degF degRe kelvin degR + their delta_ units + {n_gen} GENERATED offset "
+               "units (random rational scale, some negative, and offset; reference kelvin / degR / millikelvin) with their "
+               "delta_ units; the definition lines are given to pint (define) and, through T1's reader, to the model. "
+               "1 bundled units: every ordered pair x {to/ito, +, -, *, /, <, <=, >, >=, ==} x autoconvert on/off x scalar / "
+               "ndarray (in-place twin), default_as_delta alternating (thorough: both); equal temperatures in different "
+               "units; both magnitudes zero. 2 every ordered pair with a generated unit (thorough: 20000 sampled): "
+               "conversion + 0-2 arithmetic operators (+ a comparison with prob. 0.2), random mode and magnitude kind; 600 / "
+               "3000 path triples. 3 per unit: a number as the other operand in both orders, ** (-2..3, __ipow__ on arrays), "
+               "unary -, abs, to_root_units / ito_root_units. 4 compound containers (offset unit squared, inverted, times or "
+               "per a length, two offset units, offset x delta, delta per kelvin ...): predicates, pairs of equal "
+               "dimensionality, numbers, powers, conversions. 5 string parsing under both default_as_delta values. 6 log "
+               "units: every ordered pair of log units and related linear units — the conversion plan exactly, the float "
+               "value |err| <= 1e-12*max(1,|expected|) against a 60-digit evaluation (a test), same-unit + - and * 2. "
+               "Every operation is labelled with the branch pint's own predicates select; the model must take the same "
+               "branch and return the same value and unit or the same exception class. non-trivial = distinct (stream, "
+               "operator, units, autoconvert, magnitude kind)")
     ck.assumptions += [
         "logarithmic converters: the float results of numpy/libm log and exp are compared with a 50-digit evaluation "
         "of the same plan within 1e-12 — a test, not a proof; log_inverse is proved over Coq's real numbers",
@@ -342,8 +352,8 @@ def run(ck):
     built_run = ck.coq_build(["Model/OffsetRun.vo", "Gen/DefaultReg.vo", "Gen/Converters.vo"])
     ck.coq_build(["Properties/C06.vo"])
     _drop_axioms_header(ck)
-    if not built_run:
-        return
+    # when the model could not be built (translator or model broken) the oracles still run on pint alone,
+    # so that a concrete failing input is reported whenever there is one
 
     import time
     t_ = {"start": time.time()}
@@ -540,7 +550,8 @@ def run(ck):
         ka, kb = a.kind, b.kind
 
         def expect(vals, unit, what):
-            oracle(o.kind == "val" and o.units == {unit: F(1)} and o.vals == vals, f"table:{what}:{key}",
+            how = ("raises-" + o.err) if o.kind == "err" else ("wrong-unit" if o.kind == "val" and o.units != {unit: F(1)} else "wrong-value")
+            oracle(o.kind == "val" and o.units == {unit: F(1)} and o.vals == vals, f"table:{what}:{how}:{key}",
                    f"{[str(x) for x in xs]} {a.name} {PYOP[op]} {[str(y) for y in ys]} {b.name}: expected "
                    f"{[str(v) for v in vals]} {unit}, got {o}", rp)
 
@@ -609,7 +620,10 @@ def run(ck):
                 return      # undocumented; correspondence only
             import operator
             f = {"lt": operator.lt, "le": operator.le, "gt": operator.gt, "ge": operator.ge}[op]
-            ev = [f(a.root(x) if ka != "delta" else a.S * x, b.root(y) if kb != "delta" else b.S * y) for x, y in zip(xs, ys)]
+            if a.name == b.name:      # same unit: the magnitudes are compared (also for a unit with a negative scale)
+                ev = [f(x, y) for x, y in zip(xs, ys)]
+            else:
+                ev = [f(a.root(x) if ka != "delta" else a.S * x, b.root(y) if kb != "delta" else b.S * y) for x, y in zip(xs, ys)]
             oracle(o.kind == "bool" and o.vals == ev, f"table:order:{key}", f"{PYOP[op]} expected {ev}, got {o}", rp)
 
     defaults = [u for u in units if not u.generated]
@@ -636,11 +650,14 @@ def run(ck):
         for op in ("eq", "le", "lt"):
             xs, ys, o, rp, _ = do_bin(op, a.name, b.name, rng.choice(modes_all), False, "bundled", [x], [y])
             table_oracles(op, a, b, xs, ys, o, rp, False)
+    # both magnitudes zero (the shortcut of __eq__)
+    for a, b in itertools.product(defaults + gens[:6], defaults + gens[:6]):
+        do_bin("eq", a.name, b.name, rng.choice(modes_all), False, "bundled", [F(0)], [F(0)])
 
     # 2. pairs with a generated unit
     pairs = [(a, b) for a in units for b in units if a.generated or b.generated]
     if thorough:
-        pairs = rng.sample(pairs, min(len(pairs), 30000))
+        pairs = rng.sample(pairs, min(len(pairs), 20000))
     for a, b in pairs:
         mode = rng.choice(modes_all)
         arr = rng.random() < 0.3
@@ -779,7 +796,8 @@ def run(ck):
                  ({u.name: F(1), "delta_" + v.name: F(1)}, "mixed"), ({"delta_" + u.name: F(1), "meter": F(-1)}, "delta-compound"),
                  ({"delta_" + u.name: F(2)}, "delta-compound"), ({u.name: F(1), "radian": F(1)}, "offset-compound"),
                  ({"kelvin": F(2)}, "mult"), ({"kelvin": F(1), "meter": F(1)}, "mult"), ({"kelvin": F(1), "inch": F(1)}, "mult"),
-                 ({u.name: F(1), "inch": F(1)}, "offset-compound"), ({"kelvin": F(1), u.name: F(1)}, "offset-compound")]
+                 ({u.name: F(1), "inch": F(1)}, "offset-compound"), ({"kelvin": F(1), u.name: F(1)}, "offset-compound"),
+                 ({"delta_" + u.name: F(1), "kelvin": F(-1)}, "delta-compound"), ({u.name: F(1), "kelvin": F(-1)}, "offset-compound")]
     seen_c = set()
     comp = [c for c in comp if not (json.dumps(sorted(c[0].items()), default=str) in seen_c or seen_c.add(json.dumps(sorted(c[0].items()), default=str)))]
     ck.extra["compound_containers"] = len(comp)
@@ -825,6 +843,13 @@ def run(ck):
                     oracle(not (o3.kind == "val" and o3.vals[0] == o.vals[0]),
                            f"conv-compound-ignores-units:{'auto' if mode[0] else 'noauto'}",
                            f"{xs[0]} {uname(c)} -> {uname(c2)} = {o.vals[0]}, the same number as -> {uname(c3)}: the length unit was ignored", rp)
+        # a number as the other operand (dimensionless containers reach the "number, self dimensionless" branch)
+        for op in ("add", "sub", "mul", "div", "eq", "lt"):
+            mode = rng.choice(modes_all)
+            xs, ys, o, rp, tag = do_bin(op, c, None, mode, rng.random() < 0.25, "compound-number")
+            if kind == "ambig" and op in ("mul", "div"):
+                oracle(o.kind == "err" and o.err in ("XOffset", "XDim"), f"ambiguous-not-refused:{op}-number:{uname(c)}",
+                       f"({uname(c)}) {PYOP[op]} number must raise, got {o}", rp)
         for e in (-1, 2):
             mode = rng.choice(modes_all)
             q = mkq(regs[mode], [F(7, 2)], c, False)
@@ -869,7 +894,7 @@ def run(ck):
     log_stream(ck, rng, thorough, add, oracle)
 
     # ------------------------------------------------------------ differ (inside Coq)
-    need_a = {"ANumZero", "ANumRefuse", "AMultSame", "AMultToOther", "AMultToSelf", "ASubOffLeft", "ASubOffRight",
+    need_a = {"ANumZero", "ANumDimless", "ANumRefuse", "AMultSame", "AMultToOther", "AMultToSelf", "ASubOffLeft", "ASubOffRight",
               "AOffDelta", "ADeltaOff", "ARefuse"}
     need_m = {"MNumber", "MQuantity", "MRefuse"}
     hit_a = {k.split(":", 1)[1] for k in ck.dist if k.startswith("addsub:")}
@@ -882,7 +907,7 @@ def run(ck):
         ck.broken.append(f"generator did not reach branches {gap}")
 
     t_["generated"] = time.time()
-    bad = ck.coq_mismatches("c06", HEADER, cases, "ok", shard=500)
+    bad = ck.coq_mismatches("c06", HEADER, cases, "ok", shard=500) if built_run else None
     t_["coq"] = time.time()
     ck.extra["timing_s"] = {"build": round(t_["start"] - ck.t0, 1), "pint_and_oracles": round(t_["generated"] - t_["start"], 1),
                             "coq_differ": round(t_["coq"] - t_["generated"], 1)}
